@@ -192,6 +192,32 @@ func extractDecoderCfg(repo, root string) error {
 		}
 		facts["G10"] = g10
 	}
+	// G11 an unknown tagged field is skipped by READING its `size` bytes (`d.read(size)`: bounded by the frame, exactly size bytes from
+	// any reader); decoder.discard — whose fallback for readers without a Discard method copies everything that is left — is only
+	// ever asked for the whole rest of the frame in decode.go
+	if fd, ok := fs["structDecodeFuncOf"]; ok {
+		unknownReads := false
+		ast.Inspect(fd, func(x ast.Node) bool {
+			if is, ok := x.(*ast.IfStmt); ok && text(is.Cond) == "ok" && is.Else != nil {
+				if text(is.Else) == "{ d.read(size) }" {
+					unknownReads = true
+				}
+			}
+			return true
+		})
+		onlyAll := true
+		ast.Inspect(dec, func(x ast.Node) bool {
+			if ce, ok := x.(*ast.CallExpr); ok {
+				if sel, ok := ce.Fun.(*ast.SelectorExpr); ok && sel.Sel.Name == "discard" && len(ce.Args) == 1 {
+					if text(ce.Args[0]) != "d.remain" {
+						onlyAll = false
+					}
+				}
+			}
+			return true
+		})
+		facts["G11"] = unknownReads && onlyAll
+	}
 	// G3
 	if fd, ok := fs["structDecodeFuncOf"]; ok {
 		var inner *ast.FuncLit
@@ -322,6 +348,7 @@ func extractDecoderCfg(repo, root string) error {
 	fmt.Fprintf(&sb, "def decoderCfg : KV.Codec.Cfg := { bounded := %v, growing := %v }\n", bounded, facts["G8"] && facts["G9"])
 	fmt.Fprintf(&sb, "/-- G8: a count that is within the ANNOUNCED frame size but beyond what was received does not allocate ahead of the data -/\ndef arraysGrow : Bool := %v\n", facts["G8"])
 	fmt.Fprintf(&sb, "/-- G9: decoder.read allocates an announced string / bytes length only up to readChunk; longer values grow with the bytes received -/\ndef readsGrow : Bool := %v\n", facts["G9"])
+	fmt.Fprintf(&sb, "/-- G11: an unknown tagged field is skipped with d.read(size); decoder.discard (reader-dependent fallback) is only used for the whole rest of the frame -/\ndef unknownTagsRead : Bool := %v\n", facts["G11"])
 	fmt.Fprintf(&sb, "/-- G10: the tagged-field loops (response header, request header, flexible structs) stop at the first decoder error -/\ndef tagLoopsStop : Bool := %v\n", facts["G10"])
 	{
 		emit := func(prefix, what string, chunk, init, grow string, ok bool) {
